@@ -25,6 +25,10 @@ ARCH_PRELUDE = r'''
     }
     impl<R: Registry> Identifier<R> {
         pub uninterp spec fn spec_ref(&self) -> IdentifierRef<R>;
+        /// the bytes of the buffer (K-bits: `as_slice`, `iter`)
+        pub uninterp spec fn spec_bits(&self) -> Seq<u8>;
+        #[verifier::external_body]
+        pub unsafe fn new(bytes: Vec<u8>) -> (r: Self) ensures r.spec_bits() == bytes@ { unimplemented!() }
         #[verifier::external_body]
         pub unsafe fn as_ref(&self) -> (r: IdentifierRef<R>) ensures r == self.spec_ref() { unimplemented!() }
         #[verifier::external_body]
@@ -52,6 +56,9 @@ ARCH_PRELUDE = r'''
     pub uninterp spec fn vx_row_remove<C>(row: VxRow, c: PhantomData<C>) -> VxRow;
     pub uninterp spec fn vx_buffer_row(bytes: Seq<u8>) -> VxRow;
     pub uninterp spec fn vx_ptr_row(p: *const u8) -> VxRow;
+    /// R6b: the pointer handed to push_from_buffer_* denotes the packed row held by the Vec
+    #[verifier::external_body]
+    pub fn vx_as_ptr(v: &Vec<u8>) -> (p: *const u8) ensures vx_ptr_row(p) == vx_buffer_row(v@) { unimplemented!() }
 
     pub open spec fn vx_swap_remove<T>(s: Seq<T>, i: int) -> Seq<T> {
         if i == s.len() - 1 { s.drop_last() } else { s.update(i, s.last()).drop_last() }
@@ -261,7 +268,7 @@ def archetype_items(u):
             }
         }''')],
            props=["C01", "C02", "C13", "C05"]),
-        Fn(AM, IMPL, "set_component_unchecked", generics="<C, I>", where="",
+        Fn(AM, IMPL, "set_component_unchecked", generics="<C>", where="",
            requires=[("pre.arch_wf", "old(self).wf()"), ("pre.safety_index", "index < old(self).length")],
            ensures=WF + [("C01.set.rows", "final(self).rows() == old(self).rows().update(index as int, vx_row_set(old(self).rows()[index as int], component))"),
                          ("C01.set.frame", "final(self).ids() == old(self).ids() && final(self).length == old(self).length")],
